@@ -41,23 +41,26 @@ Print Assumptions C17_key_old_list_collision.
 
 (* Any key function that is injective on the calls that occur: for every
    history of calls (any interleaving of functions, any length, across FIFO
-   eviction at any capacity) and in-place modifications of returned objects,
-   each call returns the value (or raises the exception) of a fresh
-   computation. *)
+   eviction), in-place modifications of returned objects, Cache.clear_cache()
+   and changes of cached.MAX_SIZE, each call returns the value (or raises the
+   exception) of a fresh computation. *)
 Theorem C17_memo_history_fresh :
-  forall (A K V E : Type) (key : A -> K) (keqb : K -> K -> bool) (F : A -> V + E) (cap : Z),
+  forall (A K V E : Type) (key : A -> K) (keqb : K -> K -> bool) (F : A -> V + E),
     (forall x y : K, keqb x y = true <-> x = y) ->
     forall Dom : A -> Prop,
       (forall a b : A, Dom a -> Dom b -> key a = key b -> a = b) ->
-      forall ops : list (mop A V),
+      forall (cap : Z) (ops : list (mop A V)),
         Forall (op_dom A V Dom) ops ->
-        map (obs V E) (snd (mrun A K V E key keqb F cap true (m_init K V) ops))
+        map (obs V E) (snd (mrun A K V E key keqb F true (m_init K V cap) ops))
         = map (fun o => Some (spec_op A V E F o)) ops.
 Proof. exact history_fresh. Qed.
 Print Assumptions C17_memo_history_fresh.
 
 (* The memoised dclab functions: key = md5 of the repaired encoding; md5 is
-   an oracle assumed collision-free on the byte strings fed to it. *)
+   an oracle assumed collision-free on the byte strings fed to it. The fresh
+   result F is a function of the call signature [sig]: arrays by dtype, shape
+   and C-order bytes, masked arrays by data and mask, lists / tuples / dicts by
+   their items, everything else by type name and str(). *)
 Theorem C17_cache_history_fresh :
   forall (D V E : Type) (md5 : bytes -> D) (deqb : D -> D -> bool),
     (forall x y : D, deqb x y = true <-> x = y) ->
@@ -66,40 +69,67 @@ Theorem C17_cache_history_fresh :
     forall (F : sig -> V + E) (cap : Z) (ops : list (mop sig V)),
       Forall (sig_dom V) ops ->
       map (obs V E)
-          (snd (mrun sig D V E (fun c => md5 (key_new c)) deqb F cap true (m_init D V) ops))
+          (snd (mrun sig D V E (fun c => md5 (key_new c)) deqb F true (m_init D V cap) ops))
       = map (fun o => Some (spec_op sig V E F o)) ops.
 Proof. exact cache_history_fresh. Qed.
 Print Assumptions C17_cache_history_fresh.
 
-(* The table never holds more than MAX_SIZE entries, and _keys / _cache stay
-   in step. *)
+(* Sentence 2 of the property for the memoised functions: the results of the
+   calls of a history are those of the same history without the in-place
+   modifications of earlier results. *)
+Theorem C17_cache_calls_independent_of_modifications :
+  forall (D V E : Type) (md5 : bytes -> D) (deqb : D -> D -> bool),
+    (forall x y : D, deqb x y = true <-> x = y) ->
+    (forall c c' : sig, wf_sig c = true -> wf_sig c' = true ->
+                        md5 (key_new c) = md5 (key_new c') -> key_new c = key_new c') ->
+    forall (F : sig -> V + E) (cap : Z) (ops : list (mop sig V)),
+      Forall (sig_dom V) ops ->
+      call_obs V ops (map (obs V E)
+        (snd (mrun sig D V E (fun c => md5 (key_new c)) deqb F true (m_init D V cap) ops)))
+      = call_obs V (drop_muts V ops) (map (obs V E)
+          (snd (mrun sig D V E (fun c => md5 (key_new c)) deqb F true (m_init D V cap)
+                     (drop_muts V ops)))).
+Proof. exact cache_calls_independent_of_modifications. Qed.
+Print Assumptions C17_cache_calls_independent_of_modifications.
+
+(* The table never holds more entries than the largest MAX_SIZE in force
+   during the history (B), and _keys / _cache stay in step. It can exceed the
+   current MAX_SIZE after the value was lowered (one eviction per miss). *)
 Theorem C17_cache_bounded :
   forall (D V E : Type) (md5 : bytes -> D) (deqb : D -> D -> bool) (F : sig -> V + E)
-         (cap : Z) (cpy : bool) (ops : list (mop sig V)),
-    0 <= cap ->
-    Z.of_nat (length (m_keys (fst (mrun sig D V E (fun c => md5 (key_new c)) deqb F cap cpy
-                                        (m_init D V) ops)))) <= cap.
+         (cpy : bool) (cap B : Z) (ops : list (mop sig V)),
+    0 <= B -> cap <= B -> caps_le sig V B ops ->
+    Z.of_nat (length (m_keys (fst (mrun sig D V E (fun c => md5 (key_new c)) deqb F cpy
+                                        (m_init D V cap) ops)))) <= B.
 Proof. exact cache_bounded. Qed.
 Print Assumptions C17_cache_bounded.
 
+Theorem C17_cache_bounded_by_current_cap_refuted :
+  exists ops : list (mop Z Z),
+    let s := fst (mrun Z Z Z Z (fun a => a) Z.eqb (fun a => inl a) true (m_init Z Z 3) ops) in
+    m_cap s < Z.of_nat (length (m_keys s)).
+Proof. exact bounded_by_current_cap_refuted. Qed.
+Print Assumptions C17_cache_bounded_by_current_cap_refuted.
+
 Theorem C17_cache_keys_aligned :
-  forall (A K V E : Type) (key : A -> K) (keqb : K -> K -> bool) (F : A -> V + E) (cap : Z),
+  forall (A K V E : Type) (key : A -> K) (keqb : K -> K -> bool) (F : A -> V + E),
     (forall x y : K, keqb x y = true <-> x = y) ->
     forall Dom : A -> Prop,
       (forall a b : A, Dom a -> Dom b -> key a = key b -> a = b) ->
-      forall ops : list (mop A V),
+      forall (cap : Z) (ops : list (mop A V)),
         Forall (op_dom A V Dom) ops ->
-        map fst (m_cache (fst (mrun A K V E key keqb F cap true (m_init K V) ops)))
-        = m_keys (fst (mrun A K V E key keqb F cap true (m_init K V) ops)).
+        map fst (m_cache (fst (mrun A K V E key keqb F true (m_init K V cap) ops)))
+        = m_keys (fst (mrun A K V E key keqb F true (m_init K V cap) ops)).
 Proof. exact cache_keys_aligned. Qed.
 Print Assumptions C17_cache_keys_aligned.
 
-(* Both provisos are necessary: handing out the cached object itself, or the
-   unrepaired key, break the property. *)
+(* Both provisos are necessary. These two statements are about the code before
+   eb0f8b1 (cached object handed out; plain concatenation as key): they
+   document the repaired defects and are tied to nothing in /repo. *)
 Theorem C17_cache_alias_refuted :
   exists ops : list (mop Z Z),
-    map (obs Z Z) (snd (mrun Z Z Z Z (fun a => a) Z.eqb (fun a => inl (10 * a)) 100 false
-                             (m_init Z Z) ops))
+    map (obs Z Z) (snd (mrun Z Z Z Z (fun a => a) Z.eqb (fun a => inl (10 * a)) false
+                             (m_init Z Z 100) ops))
     <> map (fun o => Some (spec_op Z Z Z (fun a => inl (10 * a)) o)) ops.
 Proof. exact alias_refuted. Qed.
 Print Assumptions C17_cache_alias_refuted.
@@ -107,7 +137,7 @@ Print Assumptions C17_cache_alias_refuted.
 Theorem C17_cache_key_old_refuted :
   exists ops : list (mop sig Z),
     Forall (sig_dom Z) ops /\
-    map (obs Z Z) (snd (mrun sig bytes Z Z key_old beqb F_len 100 true (m_init bytes Z) ops))
+    map (obs Z Z) (snd (mrun sig bytes Z Z key_old beqb F_len true (m_init bytes Z 100) ops))
     <> map (fun o => Some (spec_op sig Z Z F_len o)) ops.
 Proof. exact key_old_refuted. Qed.
 Print Assumptions C17_cache_key_old_refuted.
@@ -206,6 +236,17 @@ Theorem C17_object_cache_history_fresh :
 Proof. exact obj_history_fresh. Qed.
 Print Assumptions C17_object_cache_history_fresh.
 
+(* Sentence 2 of the property for cached feature arrays: what the reads of a
+   history return is what they return in the same history without the in-place
+   modifications of arrays handed out before. *)
+Theorem C17_object_reads_independent_of_modifications :
+  forall (data : list Z) (nat_dt : Z) (reuse : bool) (ops : list oop),
+    read_obs ops (map oobs (snd (orun data true nat_dt reuse o_init ops)))
+    = read_obs (drop_omuts ops)
+               (map oobs (snd (orun data true nat_dt reuse o_init (drop_omuts ops)))).
+Proof. exact obj_reads_independent_of_modifications. Qed.
+Print Assumptions C17_object_reads_independent_of_modifications.
+
 Theorem C17_object_cache_alias_refuted :
   exists data ops, map oobs (snd (orun data false 3 true o_init ops)) <> map (ospec data 3) ops.
 Proof. exact obj_alias_refuted. Qed.
@@ -247,25 +288,38 @@ Theorem C17_ancillary_history_fresh :
                     md5 (anc_key i) = md5 (anc_key i') -> anc_key i = anc_key i') ->
       forall (F : list pobj -> V + E) (ops : list (mop (list pobj) V)),
         Forall (op_dom (list pobj) V (anc_dom L)) ops ->
-        map (obs V E) (snd (mrun (list pobj) D V E (fun i => md5 (anc_key i)) deqb F 1 true
-                                 (m_init D V) ops))
+        map (obs V E) (snd (mrun (list pobj) D V E (fun i => md5 (anc_key i)) deqb F true
+                                 (m_init D V 1) ops))
         = map (fun o => Some (spec_op (list pobj) V E F o)) ops.
 Proof. exact ancillary_history_fresh. Qed.
 Print Assumptions C17_ancillary_history_fresh.
 
-(* The unrepaired LazyContourList.identifier (bytes of the first mask only)
-   breaks it: contour-derived features are stale after the masks change. *)
+(* The LazyContourList.identifier before e54bde9 (bytes of the first mask only;
+   documents the repaired defect, tied to nothing in /repo) breaks it: contour-derived features are stale after the masks change. *)
 Theorem C17_contour_identifier_refuted :
   exists ops : list (mop (list bytes) bytes),
     map (obs bytes Z) (snd (mrun (list bytes) bytes bytes Z lcl_ident_old beqb
-                                 (fun m => inl (concat m)) 1 true (m_init bytes bytes) ops))
+                                 (fun m => inl (concat m)) true (m_init bytes bytes 1) ops))
     <> map (fun o => Some (spec_op (list bytes) bytes Z (fun m => inl (concat m)) o)) ops.
 Proof. exact contour_identifier_refuted. Qed.
 Print Assumptions C17_contour_identifier_refuted.
 
 (* --- _ufunc_attrs (min/max/mean cached on the feature object) ---------------- *)
-Theorem C17_ufunc_cache_history_fresh :
+
+(* The caching rule: a summary is that of the data seen at the first access
+   after the last rejuvenate. *)
+Theorem C17_ufunc_cache_rule :
   forall (D W : Type) (ufunc : Z -> D -> W) (d : D) (ops : list (uop D)),
     urun D W ufunc {| u_parent := d; u_obj := None |} ops = uspec D W ufunc d None ops.
 Proof. exact ufunc_history_fresh. Qed.
-Print Assumptions C17_ufunc_cache_history_fresh.
+Print Assumptions C17_ufunc_cache_rule.
+
+(* Hence, with the documented discipline (rejuvenate the child after every
+   change of the parent before reading), every min/max/mean is that of the
+   data the parent currently passes on. *)
+Theorem C17_ufunc_cache_fresh_when_rejuvenated :
+  forall (D W : Type) (ufunc : Z -> D -> W) (d : D) (ops : list (uop D)),
+    synced D false ops = true ->
+    urun D W ufunc {| u_parent := d; u_obj := None |} ops = ucurrent D W ufunc d ops.
+Proof. exact ufunc_fresh_when_rejuvenated. Qed.
+Print Assumptions C17_ufunc_cache_fresh_when_rejuvenated.
